@@ -86,6 +86,7 @@ class Engine:
         self.ufs = {}          # name -> z3 function
         self.logconsts = {}
         self.model = None      # a model of the current path condition, if known
+        self.hints = []
         self.power_hook = None
         self.log10_hook = None
         self.log_tol = Fraction(1, 10 ** 12)
@@ -289,24 +290,45 @@ class Engine:
 
     # ------------------------------------------------------------------ claims
     def get_model(self, prefer_dyadic=True, extra=()):
-        """a model of the current path condition (plus extra), preferring dyadic input values"""
+        """a model of the current path condition (plus extra) whose input values are exactly
+        representable floats if possible: harness hints first, then the plain model, then dyadic grids"""
         terms = [t for t in self.inputs.values()]
-        if prefer_dyadic and terms:
-            old = self.timeout_ms
-            self.solver.set("timeout", min(2000, old))
+        old = self.timeout_ms
+
+        def exact(m):
             try:
-                small = [z3.And(t <= 64, t >= -64) for t in terms]
-                for k, more in ((0, small), (3, small), (10, [])):
-                    cons = [z3.IsInt(t * (2 ** k)) for t in terms if t.sort() == z3.RealSort()]
-                    r = self._check(*extra, *cons, *more)
-                    if r == "sat":
+                return all(Fraction(float(v)) == v for v in self.input_values(m).values())
+            except HarnessError:
+                return False
+        plain = None
+        try:
+            if self.hints:
+                self.solver.set("timeout", min(1000, old))
+                if self._check(*extra, *self.hints) == "sat":
+                    m = self.solver.model()
+                    if exact(m):
+                        return m
+            self.solver.set("timeout", old)
+            if self._check(*extra) == "sat":
+                plain = self.solver.model()
+                if not prefer_dyadic or not terms or exact(plain):
+                    return plain
+            else:
+                return None
+            self.solver.set("timeout", min(300, old))
+            small = [z3.And(t <= 64, t >= -64) for t in terms]
+            for k, more in ((0, small), (3, small), (10, [])):
+                cons = [z3.IsInt(t * (2 ** k)) for t in terms if t.sort() == z3.RealSort()]
+                for hints in ((self.hints, []) if self.hints else ([],)):
+                    if self._check(*extra, *cons, *more, *hints) == "sat":
                         return self.solver.model()
-            finally:
-                self.solver.set("timeout", old)
-        r = self._check(*extra)
-        if r == "sat":
-            return self.solver.model()
-        return None
+        finally:
+            self.solver.set("timeout", old)
+        return plain
+
+    def hint(self, cond):
+        """a preference for witness / counterexample models (never part of the path condition)"""
+        self.hints.append(cond.e if isinstance(cond, SymBool) else cond)
 
     def input_values(self, model):
         vals = {}
@@ -371,7 +393,8 @@ class Engine:
         if r == "unknown":
             self.stats.unknown_claim += 1
             return "unknown", None
-        m = self.get_model(extra=(z3.Not(e),)) or self.solver.model()
+        m0 = self.solver.model()
+        m = self.get_model(extra=(z3.Not(e),)) or m0
         return "violated", m
 
     # ------------------------------------------------------------------ search
@@ -387,6 +410,7 @@ class Engine:
             self.inputs = {}
             self.ufs = {}
             self.logconsts = {}
+            self.hints = []
             if self.trail:
                 self.model = None
             try:
